@@ -3,6 +3,9 @@
 import json, os
 HERE = os.path.dirname(os.path.abspath(__file__))
 CLAIMED = {
+ 'C12': ('other', 'Decided on the non-testing build of the core: the send_hello slot has exactly one call site (automata_tick) and only the tick stores the last-transmit time (who-may-call / who-may-write over all parsed units); automata_tick interpreted from every RepeatBand state with table count, all-complete flag, deadlines, last transmit time and clock symbolic shows that a send implies a non-empty, not-all-complete table, is preceded by the failed suppression test (nothing sent yet, or >= 1000 ms since) and followed by storing now - so consecutive periodic Hellos are >= 1000 ms apart under every interleaving - and that an empty table silences and resets the enumerator. Not decided: the Darwin daemon wiring and the documented frame-processing flow (darwin-main.c does not parse here).',
+         'clang AST, lltdsa engine, monotone clock > 0, last-transmit variable written only through the tick port',
+         'who-may-call / who-may-write + abstract interpretation of automata_tick per RepeatBand state', '4 (C12)'),
  'C16': ('other', 'Per-operation inductive ingredients of the table invariant (count = number of valid entries, unique key, all-complete = for-all over valid entries, stamps are clock readings) decided on the real API with a fully symbolic 16-entry table and every loop summarised by one symbolic index: exact count deltas paired with valid flips per iteration, lookup-before-insert with the identical key, insertion only into a slot established free, full table untouched, wipe, recomputation as a for-all, 60 s expiry in both directions, who-may-write. Step-by-step equivalence with a dictionary model over histories follows by induction and is not itself enumerated.',
          'clang AST + layouts, lltdsa engine; callers outside the parsed units that modify entries directly (Darwin) are not covered',
          'abstract interpretation with symbolic-index loop summaries; pairing and who-may-write rules', '4 (C16)'),
